@@ -65,6 +65,18 @@ fn typed_lax<A: Lbl>(ctx: &mut Ctx, kind: &str, f: &LOh<u32, A>, src: &[u32], tg
     }
 }
 
+/// a partial operation called on well-typed arguments must be defined
+fn libd<T>(ctx: &mut Ctx, kind: &str, input: &dyn Fn() -> Value, f: impl FnOnce() -> Option<T>) -> Option<T> {
+    match lib(ctx, kind, "any", input, f) {
+        Some(Some(x)) => Some(x),
+        Some(None) => {
+            ctx.check(false, &format!("{}/defined-on-well-typed-arguments/value/any", kind), || json!({"input": input(), "observed": "None"}));
+            None
+        }
+        None => None,
+    }
+}
+
 fn cat(a: &[u32], b: &[u32]) -> Vec<u32> {
     a.iter().chain(b.iter()).cloned().collect()
 }
@@ -101,8 +113,8 @@ impl C05 {
             4 => { if let Some(x) = lib(ctx, "tensor", "any", &input, || lf.tensor(&lh)) { typed(ctx, "tensor", &x, &cat(&fs, &hs), &cat(&ft, &ht), &input); } }
             5 => { if let Some(x) = lib(ctx, "bitor", "any", &input, || &lf | &lh) { typed(ctx, "bitor", &x, &cat(&fs, &hs), &cat(&ft, &ht), &input); } }
             6 => { if let Some(x) = lib(ctx, "dagger", "any", &input, || lf.dagger()) { typed(ctx, "dagger", &x, &ft, &fs, &input); } }
-            7 => { if let Some(Some(x)) = lib(ctx, "compose", "any", &input, || lf.compose(&lg)) { typed(ctx, "compose", &x, &fs, &gt, &input); } }
-            8 => { if let Some(Some(x)) = lib(ctx, "shr", "any", &input, || &lf >> &lg) { typed(ctx, "shr", &x, &fs, &gt, &input); } }
+            7 => { if let Some(x) = libd(ctx, "compose", &input, || lf.compose(&lg)) { typed(ctx, "compose", &x, &fs, &gt, &input); } }
+            8 => { if let Some(x) = libd(ctx, "shr", &input, || &lf >> &lg) { typed(ctx, "shr", &x, &fs, &gt, &input); } }
             9 | 10 => {
                 let n = a.len();
                 let (ks, kt) = (r.small(3), r.small(3));
@@ -110,8 +122,8 @@ impl C05 {
                 let ws: Vec<u32> = s.iter().map(|&i| a[i]).collect();
                 let wt: Vec<u32> = t.iter().map(|&i| a[i]).collect();
                 if kind == 9 {
-                    if let Some(Some(x)) = lib(ctx, "spider", "any", &input, || S::spider(ff(s.clone(), n), ff(t.clone(), n), sf(a.clone()))) { typed(ctx, "spider", &x, &ws, &wt, &input); }
-                } else if let Some(Some(x)) = lib(ctx, "half_spider", "any", &input, || <S as Spider<_>>::half_spider(ff(s.clone(), n), sf(a.clone()))) {
+                    if let Some(x) = libd(ctx, "spider", &input, || S::spider(ff(s.clone(), n), ff(t.clone(), n), sf(a.clone()))) { typed(ctx, "spider", &x, &ws, &wt, &input); }
+                } else if let Some(x) = libd(ctx, "half_spider", &input, || <S as Spider<_>>::half_spider(ff(s.clone(), n), sf(a.clone()))) {
                     typed(ctx, "half_spider", &x, &ws, &a, &input);
                 }
             }
@@ -148,8 +160,8 @@ impl C05 {
                 let input = || json!({"f": show_lax(&pf), "g": show_lax(&pg)});
                 match kind {
                     20 => { if let Some(x) = lib(ctx, "lax::tensor", "any", &input, || xf.tensor(&xg)) { typed_lax(ctx, "lax::tensor", &x, &cat(&fs, &gs), &cat(&ft, &gt), &input); } }
-                    21 => { if let Some(Some(x)) = lib(ctx, "lax::compose", "any", &input, || Arrow::compose(&xf, &xg)) { typed_lax(ctx, "lax::compose", &x, &fs, &gt, &input); } }
-                    22 => { if let Some(Some(x)) = lib(ctx, "lax_compose", "any", &input, || xf.lax_compose(&xg)) { typed_lax(ctx, "lax_compose", &x, &fs, &gt, &input); } }
+                    21 => { if let Some(x) = libd(ctx, "lax::compose", &input, || Arrow::compose(&xf, &xg)) { typed_lax(ctx, "lax::compose", &x, &fs, &gt, &input); } }
+                    22 => { if let Some(x) = libd(ctx, "lax_compose", &input, || xf.lax_compose(&xg)) { typed_lax(ctx, "lax_compose", &x, &fs, &gt, &input); } }
                     23 => { if let Some(x) = lib(ctx, "lax::dagger", "any", &input, || Spider::dagger(&xf)) { typed_lax(ctx, "lax::dagger", &x, &ft, &fs, &input); } }
                     24 => {
                         let mut x = xf.clone();
@@ -180,7 +192,7 @@ impl C05 {
                 let (s, t) = if n == 0 { (vec![], vec![]) } else { (r.vec_below(ks, n), r.vec_below(kt, n)) };
                 let ws: Vec<u32> = s.iter().map(|&i| a[i]).collect();
                 let wt: Vec<u32> = t.iter().map(|&i| a[i]).collect();
-                if let Some(Some(x)) = lib(ctx, "lax::spider", "any", &input, || L::spider(ff(s.clone(), n), ff(t.clone(), n), a.clone())) { typed_lax(ctx, "lax::spider", &x, &ws, &wt, &input); }
+                if let Some(x) = libd(ctx, "lax::spider", &input, || L::spider(ff(s.clone(), n), ff(t.clone(), n), a.clone())) { typed_lax(ctx, "lax::spider", &x, &ws, &wt, &input); }
             }
             29 => {
                 // hypergraph-level constructors: empty, discrete, coproduct, coequalize_vertices
@@ -202,14 +214,14 @@ impl C05 {
                     let pairs: Vec<(usize, usize)> = if n == 0 { vec![] } else { (0..r.small(3)).map(|_| { let x = r.below(n); let c: Vec<usize> = (0..n).filter(|&i| f.w[i] == f.w[x]).collect(); (x, *r.pick(&c)) }).collect() };
                     components(n, &pairs)
                 };
-                if let Some(Some(hq)) = lib(ctx, "coequalize_vertices", "any", &input, || lf.h.coequalize_vertices(&ff(cls.clone(), k))) {
+                if let Some(hq) = libd(ctx, "coequalize_vertices", &input, || lf.h.coequalize_vertices(&ff(cls.clone(), k))) {
                     let o = OpenHypergraph { s: ff(vec![], k), t: ff(vec![], k), h: hq };
                     typed(ctx, "coequalize_vertices", &o, &[], &[], &input);
                 }
             }
             31 => {
                 // validate() on outputs of composition (never done by the suite)
-                if let Some(Some(x)) = lib(ctx, "compose", "any", &input, || lf.compose(&lg)) {
+                if let Some(x) = libd(ctx, "compose", &input, || lf.compose(&lg)) {
                     let y = x.clone();
                     if let Some(v) = lib(ctx, "validate", "any", &input, || y.validate().is_ok()) {
                         ctx.count("op:validate_on_result");
@@ -273,6 +285,9 @@ impl C05 {
                 let res = guard(|| FiniteFunction::<VecKind>::new(VecArray(table.clone()), target));
                 if let Some(o) = must_return(ctx, "FiniteFunction::new", "any", res, || input.clone()) {
                     ctx.check(o.is_some() == want, "FiniteFunction::new/accepts-iff-max<target/value/any", || json!({"input": input, "observed_some": o.is_some(), "expected_some": want}));
+                    if let Some(f) = &o {
+                        ctx.check(f.table.0 == table && f.target == target, "FiniteFunction::new/returns-the-given-data/value/any", || json!({"input": input, "observed": format!("{:?} -> {}", f.table.0, f.target)}));
+                    }
                 }
             }
             1 => {
@@ -285,13 +300,23 @@ impl C05 {
                 let input = json!({"sizes": sizes, "sizes_codomain": tgt, "values_len": vlen});
                 ctx.class(if want { "IndexedCoproduct::new_accept" } else { "IndexedCoproduct::new_reject" });
                 ctx.nontrivial(&("ic", &sizes, tgt, vlen));
-                let res = guard(|| IndexedCoproduct::<VecKind, FF>::new(ff(sizes.clone(), tgt), ff(vec![0; vlen], 1)));
+                let vals: Vec<usize> = (0..vlen).collect();
+                let res = guard(|| IndexedCoproduct::<VecKind, FF>::new(ff(sizes.clone(), tgt), ff(vals.clone(), vlen.max(1) + 2)));
                 if let Some(o) = must_return(ctx, "IndexedCoproduct::new", "any", res, || input.clone()) {
                     ctx.check(o.is_some() == want, "IndexedCoproduct::new/accepts-iff-sizes-sum-to-length/value/any", || json!({"input": input, "observed_some": o.is_some(), "expected_some": want}));
+                    if let Some(c) = &o {
+                        let same = c.sources.table.0 == sizes && c.sources.target == tgt && c.values.table.0 == vals && c.values.target == vlen.max(1) + 2;
+                        ctx.check(same, "IndexedCoproduct::new/returns-the-given-data/value/any", || json!({"input": input, "observed": format!("{:?}", seg_to_lists(c))}));
+                    }
                 }
-                let res = guard(|| IndexedCoproduct::<VecKind, SF<u32>>::from_semifinite(sf(sizes.clone()), sf(vec![0u32; vlen])));
+                let svals: Vec<u32> = (0..vlen as u32).collect();
+                let res = guard(|| IndexedCoproduct::<VecKind, SF<u32>>::from_semifinite(sf(sizes.clone()), sf(svals.clone())));
                 if let Some(o) = must_return(ctx, "IndexedCoproduct::from_semifinite", "any", res, || input.clone()) {
                     ctx.check(o.is_some() == (vlen == sum), "IndexedCoproduct::from_semifinite/accepts-iff-sizes-sum-to-length/value/any", || json!({"input": input, "observed_some": o.is_some(), "expected_some": vlen == sum}));
+                    if let Some(c) = &o {
+                        let same = c.sources.table.0 == sizes && c.sources.target == sum + 1 && c.values.0 .0 == svals;
+                        ctx.check(same, "IndexedCoproduct::from_semifinite/returns-the-given-data/value/any", || json!({"input": input, "observed": format!("{:?}", segs_to_lists(c))}));
+                    }
                 }
             }
             2 => {
@@ -301,14 +326,21 @@ impl C05 {
                 let input = json!({"labels": n, "source_types": na, "target_types": nb});
                 ctx.class(if want { "Operations::new_accept" } else { "Operations::new_reject" });
                 ctx.nontrivial(&("ops", n, na, nb));
-                let res = guard(|| Operations::<VecKind, u32, u64>::new(sf(vec![0u64; n]), segs_from_lists(&vec![vec![0u32]; na]), segs_from_lists(&vec![vec![1u32, 1]; nb])));
+                let labels: Vec<u64> = (0..n as u64).map(|k| 10 + k).collect();
+                let al: Vec<Vec<u32>> = (0..na).map(|k| vec![k as u32]).collect();
+                let bl: Vec<Vec<u32>> = (0..nb).map(|k| vec![100 + k as u32, 1]).collect();
+                let res = guard(|| Operations::<VecKind, u32, u64>::new(sf(labels.clone()), segs_from_lists(&al), segs_from_lists(&bl)));
                 if let Some(o) = must_return(ctx, "Operations::new", "any", res, || input.clone()) {
                     ctx.check(o.is_some() == want, "Operations::new/accepts-iff-one-type-per-label/value/any", || json!({"input": input, "observed_some": o.is_some(), "expected_some": want}));
+                    if let Some(ops) = &o {
+                        let same = ops.x.0 .0 == labels && segs_to_lists(&ops.a).ok() == Some(al.clone()) && segs_to_lists(&ops.b).ok() == Some(bl.clone());
+                        ctx.check(same, "Operations::new/returns-the-given-data/value/any", || json!({"input": input, "observed_labels": ops.x.0 .0.clone(), "observed_a": format!("{:?}", segs_to_lists(&ops.a)), "observed_b": format!("{:?}", segs_to_lists(&ops.b))}));
+                    }
                 }
             }
             3 | 4 => {
                 // Hypergraph::new and OpenHypergraph::new: the four + two conditions, one off at a time
-                let nw = r.range(1, 4);
+                let nw = r.range(0, 4);
                 let ne = r.small(3);
                 let d: Vec<isize> = (0..6).map(|_| DELTA[r.below(5)]).collect();
                 let (ns, nt) = (bump(ne, d[0]), bump(ne, d[1]));
@@ -324,17 +356,33 @@ impl C05 {
                 ctx.class(if want_h { "Hypergraph::new_accept" } else { "Hypergraph::new_reject" });
                 ctx.nontrivial(&("hg", nw, ne, &d));
                 let (s2, t2) = (s.clone(), t.clone());
-                let res = guard(|| Hypergraph::<VecKind, u32, u64>::new(s, t, sf(vec![0u32; nw]), sf(vec![0u64; ne])));
+                let wl: Vec<u32> = (0..nw as u32).collect();
+                let xl: Vec<u64> = (0..ne as u64).map(|k| 50 + k).collect();
+                let res = guard(|| Hypergraph::<VecKind, u32, u64>::new(s, t, sf(wl.clone()), sf(xl.clone())));
                 if let Some(o) = must_return(ctx, "Hypergraph::new", "any", res, || input.clone()) {
                     ctx.check(o.is_ok() == want_h, "Hypergraph::new/accepts-iff-counts-and-codomains-agree/value/any", || json!({"input": input, "observed_ok": o.is_ok(), "expected_ok": want_h, "error": format!("{:?}", o.as_ref().err())}));
                     ctx.count(&format!("error_variant:{}", match &o { Ok(_) => "none".to_string(), Err(e) => format!("{:?}", e).split('(').next().unwrap_or("").to_string() }));
+                    if let Ok(h) = &o {
+                        let same = seg_to_lists(&h.s).ok() == seg_to_lists(&s2).ok() && seg_to_lists(&h.t).ok() == seg_to_lists(&t2).ok()
+                            && h.s.values.target == ts && h.t.values.target == tt && h.w.0 .0 == wl && h.x.0 .0 == xl;
+                        ctx.check(same, "Hypergraph::new/returns-the-given-data/value/any", || json!({"input": input, "observed_s": format!("{:?}", seg_to_lists(&h.s)), "observed_t": format!("{:?}", seg_to_lists(&h.t))}));
+                    }
                 }
                 let want_o = want_h && is_ == nw && it == nw;
                 ctx.class(if want_o { "OpenHypergraph::new_accept" } else { "OpenHypergraph::new_reject" });
-                let h = Hypergraph { s: s2, t: t2, w: sf(vec![0u32; nw]), x: sf(vec![0u64; ne]) };
-                let res = guard(|| OpenHypergraph::<VecKind, u32, u64>::new(ff(vec![], is_), ff(vec![], it), h));
+                let h = Hypergraph { s: s2.clone(), t: t2.clone(), w: sf(wl.clone()), x: sf(xl.clone()) };
+                // non-empty, different legs (each a valid finite function of its own codomain)
+                let ls: Vec<usize> = if is_ == 0 { vec![] } else { let k = r.small(3); r.vec_below(k, is_) };
+                let lt: Vec<usize> = if it == 0 { vec![] } else { let k = r.small(3) + 1; r.vec_below(k, it) };
+                let res = guard(|| OpenHypergraph::<VecKind, u32, u64>::new(ff(ls.clone(), is_), ff(lt.clone(), it), h));
                 if let Some(o) = must_return(ctx, "OpenHypergraph::new", "any", res, || input.clone()) {
                     ctx.check(o.is_ok() == want_o, "OpenHypergraph::new/accepts-iff-cospan-legs-land-in-nodes/value/any", || json!({"input": input, "observed_ok": o.is_ok(), "expected_ok": want_o}));
+                    if let Ok(f) = &o {
+                        let same = f.s.table.0 == ls && f.s.target == is_ && f.t.table.0 == lt && f.t.target == it
+                            && seg_to_lists(&f.h.s).ok() == seg_to_lists(&s2).ok() && seg_to_lists(&f.h.t).ok() == seg_to_lists(&t2).ok()
+                            && f.h.w.0 .0 == wl && f.h.x.0 .0 == xl;
+                        ctx.check(same && wf_strict(f).is_empty(), "OpenHypergraph::new/returns-the-given-data/value/any", || json!({"input": input, "legs": [ls.clone(), lt.clone()], "observed_legs": [f.s.table.0.clone(), f.t.table.0.clone()]}));
+                    }
                 }
             }
             _ => {
